@@ -279,6 +279,19 @@ fn main() {
         child.unwrap().join().unwrap();
         return;
     }
+    if args.len() >= 2 && args[1] == "stmtforms" {
+        // developer aid: statement forms of the C04/C05/C16 matrices that do not parse alone
+        for (name, st) in synprops::stmt_forms() {
+            let seed = [0u32; 0];
+            let mut src = Src::new(&seed);
+            let text = synprops::print_program(&mut src, std::slice::from_ref(&st), layout::Style::Spaced).text;
+            let p = oq3_syntax::SourceFile::parse(&text);
+            if !p.errors().is_empty() {
+                println!("{name}: {text}\n   {:?}", p.errors());
+            }
+        }
+        return;
+    }
     if args.len() >= 3 && args[1] == "forms" {
         // developer aid: print the fixed / matrix programs whose name contains the argument and
         // what the joint walk says about them
